@@ -314,6 +314,45 @@ Definition cmd_from_attrs (verb seqn x0 x1 x2 code payload : str) : result frame
   | Ok _ => mk_frame (attrs_text verb seqn x0 x1 x2 code payload)
   end.
 
+(* Command.from_cli after tokenisation (cmd_str.upper().split(); verb, [seqn], ..., code, payload popped): the address tokens that are left are
+   completed to the three address fields -- one token: a request from the gateway's placeholder to that device (the test `verb == " I"` of the
+   source can never hold for a token, which has no space; it is modelled as written); two equal tokens: a device announcing itself; two
+   different ones: source and destination; three: taken as they are.  The payload is cut to 48 characters. *)
+Definition HGI_ADDR : str := lit "18:000730".
+Definition cli_addrs (verb : str) (parts : list str) : option (str * str * str) :=
+  match parts with
+  | [a] => if str_eqb verb (lit " I") then Some (NON_DEV, NON_DEV, a) else Some (HGI_ADDR, a, NON_DEV)
+  | [a; b] => if str_eqb a b then Some (a, NON_DEV, b) else Some (a, b, NON_DEV)
+  | [a; b; c] => Some (a, b, c)
+  | _ => None
+  end.
+Definition cmd_from_cli (verb seqn : str) (parts : list str) (code payload : str) : result frame :=
+  match cli_addrs verb parts with
+  | None => Raise PacketInvalid      (* CommandInvalid *)
+  | Some (x0, x1, x2) => cmd_from_attrs verb seqn x0 x1 x2 code (firstn 48 payload)
+  end.
+
+(* ... and the tokenisation itself: toks = cmd_str.upper().split().  The second token is the sequence number unless it looks like a device id
+   (DEVICE_ID_REGEX.ANY = ^[0-9]{2}:[0-9]{6}$ -- so a frame whose FIRST address is the null address needs its sequence number spelt out);
+   the last two tokens are code and payload *)
+Definition is_dev_id (s : str) : bool :=
+  match s with
+  | [a; b; c; d; e; f; g; h; i] =>
+      is_digit a && is_digit b && Ascii.eqb c ":"%char && is_digit d && is_digit e && is_digit f && is_digit g && is_digit h && is_digit i
+  | _ => false
+  end.
+Definition cmd_from_cli_toks (toks : list str) : result frame :=
+  if (length toks <? 4)%nat then Raise PacketInvalid      (* CommandInvalid: not parseable *)
+  else match toks with
+       | verb :: first :: rest =>
+           let '(seqn, r2) := if is_dev_id first then (lit "---", first :: rest) else (first, rest) in
+           match rev r2 with
+           | payload :: code :: parts_rev => cmd_from_cli verb seqn (rev parts_rev) code payload
+           | _ => Raise OtherExn                           (* IndexError: pop from an empty list *)
+           end
+       | _ => Raise PacketInvalid
+       end.
+
 (* ---------------------------------------------------------------- the packet log (C02) *)
 (* PKT_LOG_FMT + BANDW_SUFFIX as _Logger.makeRecord fills them:
    asctime ++ " RSS frame" ++ [" < msg"] ++ [" * err"] ++ [" # comment"] *)
